@@ -447,4 +447,8 @@ func runC14(r *Run) {
 		order.ViolationPath(efn, instrPos(site), "lock cycle "+strings.Join(cyc, " -> "), "two goroutines taking these locks in opposite order (or one re-acquiring a non-reentrant mutex) deadlock", strings.Join(w, "; "))
 	}
 	order.Done()
+	// what each critical section decides is what a sequential table would decide: the timeout selection scans the
+	// whole table with the strict predicate, and every removal is followed by exactly one event on every path - no
+	// panic or early exit between the removal and the handler (shared with C13)
+	r.Borrow("C13", map[string]string{"C13.collect": "C14.collect", "C13.terminal": "C14.terminal"})
 }
